@@ -22,12 +22,13 @@ pub const UNI_WORDS: &[&str] = &[
     "\u{ff28}", "\u{ff28}\u{ff45}", "a\u{a0}b", "\u{a0}", "a\u{200b}b", "\u{200b}", "hy\u{ad}phen", "\u{ad}", "a\u{2060}b", "\u{1f468}\u{200d}\u{1f9b0}",
     "\u{2049}\u{fe0f}", "\u{3ff}", "\u{2011}", "foo\u{2011}bar", "\u{3000}", "\u{1100}", "\u{10ff}", "\u{10ffff}", "\u{7f}", "\u{85}",
 ];
-pub const CTRL_WORDS: &[&str] = &["\t", "a\tb", "\r", "a\rb", "\u{0}", "\u{b}", "\u{c}", "\u{2028}", "a\u{7}"];
+pub const CTRL_WORDS: &[&str] = &["\t", "a\tb", "\r", "a\rb", "\u{0}", "\u{b}", "\u{c}", "\u{2028}", "a\u{7}", "ab\u{7f}", "\u{7f}x", "a\u{1}b", "x\u{9f}"];
 pub const PUNCT_WORDS: &[&str] = &["[", "]", "( a )", "[ foo ]", "bar !", "\u{ab}", "\u{bb}", "a/b", "http://x.y/z", "$1", "50%", "a,b", "\"q\""];
 
 pub const ANSI_WF: &[&str] = &[
     "\u{1b}[31m", "\u{1b}[0m", "\u{1b}[1;32m", "\u{1b}[m", "\u{1b}[38;5;196m", "\u{1b}[K", "\u{1b}[[",
     "\u{1b}]8;;http://example.com\u{1b}\\", "\u{1b}]8;;\u{1b}\\", "\u{1b}]8;;x\u{7}", "\u{1b}]0;title\u{7}", "\u{1b}]\u{7}", "\u{1b}]a b\u{1b}\\",
+    "\u{1b}]8;;http://foo-bar.example/a-b\u{1b}\\", "\u{1b}]8;;x-y\u{7}",
     "\u{1b}[3 m", "\u{1b}]\u{4f60}\u{7}", "\u{1b}[\u{4f60}m",
 ];
 /// SGR / OSC-8 sequences without spaces or hyphens inside (for C13, where sequences are "attached to words")
